@@ -1,14 +1,23 @@
 """Sidecar contracts for rnapolis.annotator.find_pairs / detect_cis_trans (C03, and the contact-soundness sentence of C11).
 
-find_pairs is cut at its phases; every phase is a PREFIX contract (stop_before) on the same function:
-the real function body is executed symbolically up to the statement `bph_map = merge_and_clean_bph_br(...)` (the base-pair
-list `base_pairs` is complete there and is not assigned afterwards).  A phase variant gives the loops of the OTHER phases the
-invariant `true`: what those loops assign is then completely unknown when the phase starts, so the clauses of a phase hold
-for EVERY value of the earlier phases' outputs - no assumption about the state a phase starts from is made.  What a variant
-leaves to the other variants is exceptions (its `raises` list names the exception types whose absence another variant proves).
+find_pairs is cut at its phases; every phase is a PREFIX contract (stop_before) on the same function: the real function body is
+executed symbolically from its first statement up to a statement behind the phase (at the latest `bph_map = merge_and_clean_bph_br(...)`,
+where the base-pair list `base_pairs` is complete; it is not assigned afterwards).  A phase variant gives the loops of the OTHER phases
+the invariant `true`: what those loops assign is then completely unknown when the phase starts, so the clauses of a phase hold for
+EVERY value of the earlier phases' outputs - no assumption about the state a phase starts from is made.  What a phase variant leaves
+to another variant is exceptions: its `raises` list allows them, and find_pairs@safe (raises = []) proves that none occurs.
 
-Reused by import (not edited): contracts/annotator_c.py - Residue3D.find_atom, Residue3D.__lt__, angle_between_vectors
-contracts and their vocabulary (first_idx, rlt, vangle6, degrees), the KD-tree externals.
+    find_pairs@table            phase 0/4  rows of the coordinate table <-> (residue, atom); each (residue, atom) listed once
+    find_pairs@contacts         phase 3    recorded hydrogen bonds are contacts (sound), definite base-to-base contacts are recorded
+    find_pairs@bph              phase 3    base-phosphate / base-ribose triples (C11 sentence), what `used_atoms` does
+    find_pairs@labels           phase 2    every label comes from one recorded bond; one bond never yields a label twice
+    find_pairs@labels_complete  phase 2    every edge combination of a recorded bond has its label
+    find_pairs@greedy           phase 1    count >= 2, exclusivity, maximality over Counter(labels).most_common() in ANY order
+    find_pairs@output           phase 5    base_pairs == sorted(base_base_pairs) as BasePair records
+    find_pairs@safe                        no exception up to the base-pair list
+
+Reused by import (not edited): contracts/annotator_c.py - the contracts of Residue3D.find_atom, Residue3D.__lt__,
+detect_bph_br_classification, detect_saenger and their vocabulary (first_idx, rlt, vangle6, degrees, cis_torsion ...), the KD-tree externals.
 """
 import z3
 
@@ -29,7 +38,7 @@ INLINE = []
 CLASSES = {
     # Atom / Residue3D / Structure3D: heap objects that find_pairs never writes (frozen dataclasses of the library).
     # label / auth identifiers are opaque tokens (only copied and compared); Optional as in the library.
-    # Atom.coordinates (cached property numpy.array([x, y, z])) is read as a stored attribute, see requires `coords_def`.
+    # Atom.coordinates (cached property numpy.array([x, y, z])) is read as a stored attribute, see requires REQ_COORDS.
     "Atom": {"kind": "object", "fields": {"name": "str", "x": "real", "y": "real", "z": "real", "label": "opt[int]", "auth": "opt[int]",
                                           "coordinates": "vec3"}},
     "Residue3D": {"kind": "object", "fields": {"model": "int", "one_letter_name": "str", "atoms": "list[Atom]",
@@ -491,6 +500,10 @@ class find_pairs_labels_complete(_FindPairsBase):
          "do": ["assert forall(lambda e: implies(on_edge(residue_i, atom_i, e), e == char(edges_i, 0) or (1 < len(edges_i) and e == char(edges_i, 1))), sorts={'e': 'str'})",
                 "assert forall(lambda e: implies(on_edge(residue_j, atom_j, e), e == char(edges_j, 0) or (1 < len(edges_j) and e == char(edges_j, 1))), sorts={'e': 'str'})",
                 "assert distinct_chars(edges_i) and distinct_chars(edges_j) and 1 <= len(edges_i) and len(edges_i) <= 2 and 1 <= len(edges_j) and len(edges_j) <= 2"]},
+        {"when": "before", "at": "labels.append((residue_i, residue_j", "label": "positions-in-the-edge-strings",
+         "do": ["assert (p4 == 0 or p4 == 1) and (p5 == 0 or p5 == 1) and edge_i == char(edges_i, p4) and edge_j == char(edges_j, p5)"]},
+        {"when": "before", "at": "labels.append((residue_j, residue_i", "label": "positions-in-the-edge-strings",
+         "do": ["assert (p6 == 0 or p6 == 1) and (p7 == 0 or p7 == 1) and edge_i == char(edges_i, p6) and edge_j == char(edges_j, p7)"]},
         {"when": "after", "at": "labels.append((residue_i, residue_j", "label": "record-label",
          "do": ["let LP = dstore(LP, (h, edge_i, edge_j), len(SRC3))", "let SRC3 = snoc(SRC3, h)"]},
         {"when": "after", "at": "labels.append((residue_j, residue_i", "label": "record-label-swapped",
@@ -593,7 +606,8 @@ _TABLE_GHOST = [
      "do": ["assert forall(lambda n: (n in acceptors) == is_acc(residue, n), sorts={'n': 'str'})",
             "assert forall(lambda n: (n in donors) == is_don(residue, n), sorts={'n': 'str'})"]},
     {"when": "after", "at": "atom = residue.find_atom(", "label": "iterated-name-is-a-listed-name",
-     "do": ["use first_idx_definition(residue, atom_name)", "assert atom_name in acceptors or atom_name in donors"]},
+     "do": ["use first_idx_definition(residue, atom_name)", "assert atom_name in acceptors or atom_name in donors",
+            "assert (atom_name in acceptors) == is_acc(residue, atom_name) and (atom_name in donors) == is_don(residue, atom_name)"]},
     {"when": "after", "at": "atom = residue.find_atom(", "label": "each-atom-name-of-a-residue-is-visited-once",
      "do": [f"assert forall(lambda q: implies(0 <= q and q < kk, {_ORD}[q] != atom_name))"]},
     {"when": "before", "at": "coordinates.append(", "label": "new-coordinate-differs-from-all-earlier",
@@ -626,48 +640,6 @@ class find_pairs_table(_FindPairsBase):
     ]
     stop_ensures_labels = {0: "every-row-is-a-listed-atom-of-a-residue-of-the-model", 1: "distinct-rows-are-distinct-(residue,atom)-pairs",
                            2: "distinct-rows-have-distinct-coordinates"}
-
-
-# ---- PHASE 0, completeness half: every listed atom that is present in a residue of the model has a row
-@spec
-def wants_row(S, model, b, n):
-    return 0 <= b and b < len(S) and in_model(S[b], model) and (is_acc(S[b], n) or is_don(S[b], n)) and first_idx(S[b], n) >= 0
-
-
-@spec
-def has_row(GA, GN, ROWOF, b, n):
-    return 0 <= ROWOF[b, n] and ROWOF[b, n] < len(GA) and GA[ROWOF[b, n]] == b and GN[ROWOF[b, n]] == n
-
-
-_TC_LEN = "0 <= len(coordinates) and len(GA) == len(coordinates) and len(GN) == len(coordinates)"
-_TC_DONE = (f"forall(lambda b, n: implies(b < a and wants_row({_S}, model, b, n), has_row(GA, GN, ROWOF, b, n)), sorts={{'n': 'str'}})")
-_TC_CUR = f"forall(lambda q: implies(0 <= q and q < kk and first_idx({_S}[a], ORD[q]) >= 0, has_row(GA, GN, ROWOF, a, ORD[q])))"
-_TC_LAB = {0: "lengths", 1: "every-listed-present-atom-of-the-processed-residues-has-a-row", 2: "names-visited-so-far-have-their-rows"}
-
-
-class find_pairs_table_complete(_FindPairsBase):
-    """Ghost state: GA / GN as in find_pairs@table; ROWOF[(b, n)] = the row made for atom name n of residue b."""
-    stop_before = "kdtree = KDTree("
-    raises = []
-    loops = {
-        0: {"index": "a", "labels": _TC_LAB, "inv": [_TC_LEN, _TC_DONE]},
-        1: {"index": "kk", "elems": "ORD", "labels": _TC_LAB, "inv": [_TC_LEN, _TC_DONE, _TC_CUR]},
-    }
-    ghost = [
-        {"when": "after", "at": "coordinates = []", "label": "ghost-init",
-         "do": ["let GA = empty('list[int]')", "let GN = empty('list[str]')", "let ROWOF = empty('dict[tuple[int,str],int]')"]},
-        {"when": "before", "at": "for atom_name in", "label": "code-tables-equal-pinned-tables",
-         "do": ["assert forall(lambda n: (n in acceptors) == is_acc(residue, n), sorts={'n': 'str'})",
-                "assert forall(lambda n: (n in donors) == is_don(residue, n), sorts={'n': 'str'})"]},
-        {"when": "after", "at": "for atom_name in", "label": "every-listed-name-is-visited",
-         "do": ["assert forall(lambda n: implies(n in acceptors or n in donors, exists(lambda q: 0 <= q and q < len(ORD) and ORD[q] == n)), sorts={'n': 'str'})"]},
-        {"when": "after", "at": "coordinates.append(", "label": "record-row",
-         "do": ["let ROWOF = dstore(ROWOF, (a, atom_name), len(GA))", "let GA = snoc(GA, a)", "let GN = snoc(GN, atom_name)"]},
-    ]
-    stop_ensures = [
-        f"len(GA) == len(coordinates) and len(GN) == len(coordinates) and forall(lambda b, n: implies(wants_row({_S}, model, b, n), has_row(GA, GN, ROWOF, b, n)), sorts={{'n': 'str'}})",
-    ]
-    stop_ensures_labels = {0: "every-listed-atom-present-in-a-residue-of-the-model-has-a-row"}
 
 
 # ---------------------------------------------------------------------------------------------------------------------
@@ -747,7 +719,6 @@ REQ_COORDS = "forall(lambda x: x.coordinates == vec(x.x, x.y, x.z), sorts={'x': 
 REQ_NORMAL = ("forall(lambda r: implies(not is_none(r.base_normal_vector), dot3(some(r.base_normal_vector), some(r.base_normal_vector)) > 0), "
               "sorts={'r': 'Residue3D'})")
 _TBL = f"{_S}, GA, GN"
-_ALLROWS = f"forall(lambda k: implies(0 <= k and k < len(coordinates), {_ROW('k')}), pats=['GA[k]'])"
 _H_LEN = "0 <= len(hydrogen_bonds) and len(SRC2) == len(hydrogen_bonds) and len(POS2) == w"
 _H_SOUND = (f"forall(lambda h: implies(0 <= h and h < len(hydrogen_bonds), 0 <= SRC2[h] and SRC2[h] < w and POS2[SRC2[h]] == h "
             f"and hb_is(hydrogen_bonds[h], {_TBL}, EN[SRC2[h]][0], EN[SRC2[h]][1]) and contact({_TBL}, coordinates, EN[SRC2[h]][0], EN[SRC2[h]][1], EPS)), pats=['SRC2[h]'])")
@@ -804,7 +775,7 @@ class find_pairs_contacts(_FindPairsBase):
     ]
     stop_ensures = [
         f"len(SRC2) == len(hydrogen_bonds) and forall(lambda h: implies(0 <= h and h < len(hydrogen_bonds), 0 <= SRC2[h] and SRC2[h] < len(EN) "
-        f"and (EN[SRC2[h]][0], EN[SRC2[h]][1]) in kdtree.query_pairs(D_HB) "
+        f"and (EN[SRC2[h]][0], EN[SRC2[h]][1]) in kdtree.query_pairs(D_HB) and GA[EN[SRC2[h]][0]] != GA[EN[SRC2[h]][1]] "
         f"and hb_is(hydrogen_bonds[h], {_TBL}, EN[SRC2[h]][0], EN[SRC2[h]][1]) and contact({_TBL}, coordinates, EN[SRC2[h]][0], EN[SRC2[h]][1], EPS)))",
         "forall(lambda h, g: implies(0 <= h and h < g and g < len(hydrogen_bonds), EN[SRC2[h]][0] != EN[SRC2[g]][0] or EN[SRC2[h]][1] != EN[SRC2[g]][1]))",
         f"forall(lambda i, j: implies(contact({_TBL}, coordinates, i, j, 0 - EPS) and not backbone_oxygen(GN[i]) and not backbone_oxygen(GN[j]), "
@@ -1012,7 +983,6 @@ CONTRACTS = {
     "detect_cis_trans": detect_cis_trans_c,
     "find_pairs@greedy": find_pairs_greedy,
     "find_pairs@table": find_pairs_table,
-    "find_pairs@table_complete": find_pairs_table_complete,
     "find_pairs@contacts": find_pairs_contacts,
     "find_pairs@bph": find_pairs_bph,
     "find_pairs@labels": find_pairs_labels,
